@@ -355,6 +355,24 @@ def coq_property_file(pid, timeout=1500, stem=None):
     return res
 
 
+def kernel_crosscheck(name, imports, body, timeout=600):
+    """Tie of the EXTRACTED code to the kernel: `body` is Gallina text that states, as Examples proved by `vm_compute. reflexivity.`,
+    that the model's definitions evaluated inside Coq give exactly the answers the extracted OCaml driver gave for a sample of this
+    run's cases.  The file lives in the build directory (never in coq/), is compiled with the project's load path and must be
+    accepted by coqc.  Returns (ok, message)."""
+    d = os.path.join(BUILD, "kernel")
+    os.makedirs(d, exist_ok=True)
+    vf = os.path.join(d, "Kernel_%s.v" % name)
+    with open(vf, "w") as f:
+        f.write("(* written by the check on every run: extracted model vs kernel evaluation, same inputs *)\n")
+        f.write(imports + "\n" + body + "\n")
+    with Lock("coq"):
+        rc, out = sh("timeout %d coqc -Q %s SqfVerif -Q %s Kernel %s" % (timeout, COQ, d, vf), cwd=d, timeout=timeout + 30)
+    if rc != 0:
+        return False, out[-1500:]
+    return True, ""
+
+
 def coqproject_args():
     args = []
     for line in open(os.path.join(COQ, "_CoqProject")):
